@@ -103,7 +103,7 @@ func (v *VerifC14[T, O]) SetIdleTimeout(d time.Duration) { v.db.segmentControlle
 
 // RetentionRun runs a retentionTask exactly as the cron/tick path does (gate included).
 func (v *VerifC14[T, O]) RetentionRun(now time.Time) {
-	rt := newRetentionTask(v.db, v.db.segmentController.getOptions().TTL)
+	rt := newRetentionTask(v.db)
 	rt.run(context.Background(), now, v.db.logger)
 }
 
